@@ -229,6 +229,9 @@ def loader_view(path):
     return out
 
 
+_PREV_FILE = []
+
+
 def check_book(ctx, spec, titles, plant, probes, name, far=False):
     r = ctx.r
     install_parse_hook(r)
@@ -324,6 +327,26 @@ def check_book(ctx, spec, titles, plant, probes, name, far=False):
                 g != e and not (e == {'last_column': 0, 'last_row': 0} and g == {'last_column': 1, 'last_row': 1})
                 for g, e in zip(gs.value, exp_sizes)):
             report(r, ID, None, dict(case0, what='get_sheets_size'), gs.brief(), exp_sizes, monitor='class-sizes')
+    # the class FILE of this book and of the book before it (same file name, directories of their own): written one after the other,
+    # then the newer one is loaded first and the older one after it - each has to report the titles of its own workbook
+    if book.cls is not None and book.whole is not None and book.whole.ok and not far:
+        fx, fpath_ = pipeline.file_executor(book.whole.value, ctx.workdir, 'cls_' + name)
+        r.count('class_files_loaded')
+        if fx.ok:
+            for (label, exf, exp_t) in [('this', fx.value, titles)] + ([('previous, loaded again after a newer one',
+                                         pipeline.guarded(lambda: pipeline.Executor().set_executed_class(class_file=_PREV_FILE[0]), 'load_file'), _PREV_FILE[1])] if _PREV_FILE else []):
+                if label != 'this':
+                    if not exf.ok:
+                        report(r, ID, None, dict(case0, what='class file of ' + label), exf.brief(), 'loads', monitor='class-titles')
+                        continue
+                    exf = exf.value
+                gt_ = pipeline.guarded(lambda: dict(exf.get_executed_class().get_titles()), 'evaluate')
+                r.ev()
+                if not gt_.ok or gt_.value != {t: i for i, t in enumerate(exp_t)}:
+                    report(r, ID, None, dict(case0, what='titles reported by the class loaded from the file of the workbook: ' + label), gt_.brief(),
+                           {t: i for i, t in enumerate(exp_t)}, monitor='class-titles')
+            del _PREV_FILE[:]
+            _PREV_FILE.extend([fpath_, list(titles)])
     # constants: value and type through the executor
     pos_in_row = {}
     for (si, rr, cc) in sorted(plant):
